@@ -34,7 +34,11 @@ ASSUMPTIONS = ["in the progmodel histories a method of an already created DBC cl
                "before/after comparison of the same library (metamorphic); the reference model is not needed here"]
 DECO_KW = dict(n_pre=(0, 2), n_post=(0, 2), n_snap=(0, 1), n_wraps=(0, 1), err_forms=("default", "instance"))
 HIER_KW = dict(n_classes=(2, 7), dag=True, with_invs=True, with_init=True, multi_root=True, async_ok=False)
-KNOWN = {}
+KNOWN = {
+    # one contracted FUNCTION OBJECT installed as a member of a class whose bases provide other contracts for the name: the
+    # meta-class writes the merged lists onto the shared checker (open finding D45)
+    "D45": lambda bucket, case: bucket.startswith("shared-function|"),
+}
 
 
 def list_snapshot(loaded, program, upto, model):
@@ -606,6 +610,7 @@ def run(ctx, tier, seed, shard, nshards):
         for case in directed_programs():
             check_case(ctx, case)
         ctx.count("directed_mixin_histories", 48)
+        shared_function_cases(ctx)
 
     @given(strategy())
     def test(case):
@@ -614,7 +619,100 @@ def run(ctx, tier, seed, shard, nshards):
     core.run_hypothesis(test, seed, n)
 
 
+def shared_function_cases(ctx, only=None):
+    """One contracted function object used as a member of a later class whose bases provide OTHER contracts for that
+    name (an alias of a grand-parent's method below an intermediate override, an alias under another name, a contracted
+    module-level function, the same function in two unrelated hierarchies): whoever owned the function before keeps its
+    verdicts."""
+    import icontract
+
+    def variant(name):
+        log = []
+
+        def post(tag, pred):
+            def c(result):
+                log.append(tag)
+                return pred(result)
+            return c
+
+        def pre(tag, pred):
+            def c(x):
+                log.append(tag)
+                return pred(x)
+            return c
+
+        class Base(icontract.DBC):
+            @icontract.ensure(post("base-post", lambda r: r > 0))
+            def f(self, x):
+                return x
+
+            @icontract.ensure(post("g-post", lambda r: r < 100))
+            def g(self, x):
+                return x
+
+        if name == "alias of the grand-parent's method":
+            probe = lambda: Base().f(500)  # noqa
+            before = probe()
+
+            class Mid(Base):
+                @icontract.ensure(post("mid-post", lambda r: r < 100))
+                def f(self, x):
+                    return x
+
+            type(icontract.DBC)("Sub", (Mid,), {"f": Base.f})
+        elif name == "alias under another name":
+            probe = lambda: Base().f(500)  # noqa
+            before = probe()
+            type(icontract.DBC)("S", (Base,), {"g": Base.f})
+        elif name == "contracted module-level function":
+            helper = icontract.ensure(post("helper-post", lambda r: r != 7))(lambda self, x: x)
+            probe = lambda: helper(None, -5)  # noqa
+            before = probe()
+            type(icontract.DBC)("Sub", (Base,), {"f": helper})
+        else:
+            shared = icontract.require(pre("shared-pre", lambda x: x > 0))(lambda self, x: x)
+            A = type(icontract.DBC)("A", (icontract.DBC,), {"f": shared})
+
+            def probe():
+                try:
+                    return A().f(-200)
+                except icontract.ViolationError:
+                    return "violation"
+            before = probe()
+
+            class Base2(icontract.DBC):
+                @icontract.require(pre("base2-pre", lambda x: x < -100))
+                def f(self, x):
+                    return x
+
+            type(icontract.DBC)("B", (Base2,), {"f": shared})
+        try:
+            after = probe()
+        except icontract.ViolationError:
+            after = "violation"
+        return before, after
+
+    for name in ("alias of the grand-parent's method", "alias under another name", "contracted module-level function",
+                 "same function in two unrelated hierarchies"):
+        if only and only != name:
+            continue
+        try:
+            before, after = variant(name)
+        except BaseException as e:  # noqa
+            before, after = "ok", "%s: %s" % (type(e).__name__, str(e)[:120])
+        ctx.case(["shared-function", name], True, sample={"directed": "shared function object: " + name, "before": str(before), "after": str(after)})
+        ctx.count("directed:shared-function-cases")
+        if before != after:
+            ctx.fail("shared-function|%s" % name, {"shared_function": name},
+                     "%s: the earlier definition answered %r before the later class was created and %r afterwards" % (name, before, after))
+
+
 def replay(ctx, case):
+    if case.get("shared_function"):
+        before = ctx.evaluations
+        shared_function_cases(ctx, only=case["shared_function"])
+        ctx.evaluations = before + 1
+        return
     if "shared_history" in case:
         check_shared_history(ctx, case)
         return
